@@ -259,7 +259,8 @@ def _run(ctx, rng, thorough, T):
         har['log']['entries'].append({'startedDateTime': '2020-01-01T00:00:00.000Z', 'time': 1, 'cache': {}, 'timings': {'send': 0, 'wait': 0, 'receive': 0},
             'request': {'method': method, 'url': url, 'httpVersion': 'HTTP/1.1', 'cookies': [], 'headers': [{'name': 'Accept', 'value': '*/*'}], 'queryString': [], 'headersSize': -1, 'bodySize': -1},
             'response': {'status': 200, 'statusText': 'OK', 'httpVersion': 'HTTP/1.1', 'cookies': [],
-                         'headers': [{'name': 'Content-Type', 'value': 'text/plain'}, {'name': ':status', 'value': '200'}, {'name': 'Set-Cookie', 'value': 'a=b'}, {'name': 'X-Ok', 'value': 'fine'}],
+                         'headers': [{'name': 'Content-Type', 'value': 'text/plain'}, {'name': ':status', 'value': '200'}, {'name': 'Set-Cookie', 'value': 'a=b'}, {'name': 'X-Ok', 'value': 'fine'}]
+                                    + ([{'name': 'Variants', 'value': 'Accept-Language;en;fr'}, {'name': 'Variant-Key', 'value': 'en'}] if i == 4 else []),
                          'content': content, 'redirectURL': '', 'headersSize': -1, 'bodySize': len(body)}})
         if method == 'GET':
             exp_urls.append((url, hashlib.sha256(body).hexdigest()))
